@@ -8,7 +8,9 @@ def run():
     tok_model(acc, ["A"], 6 if th else 5, invariants=["Recase", "Respace", "Decorate", "BlankLine", "TailLine"])
     tok_model(acc, ["B"], 5 if th else 4)
     tok_model(acc, ["H"], 6 if th else 5)       # line numbers after hyphenated words (TailLine, BlankLine)
+    tok_model(acc, ["J"], 5 if th else 4)       # character references whose names are written in other cases (Recase)
     tok_replay(v, acc, ["A", "B", "H"], 6 if th else 5)
+    tok_replay(v, acc, ["J"], 5 if th else 4)
     pad_leg(v, acc)                                       # the read buffer under the tokenizer: multi-byte text at every alignment
     tables_leg(v, acc)                                    # list markers, interchangeable spellings, rewritten runes: the tables entry by entry
     recs, lines = trace_leg(v, acc, "c05", [PID])
